@@ -37,6 +37,8 @@ type Event struct {
 	DiffKeys []string `json:"diffkeys,omitempty"`
 	SameKeys []string `json:"samekeys,omitempty"` // parts of the environments that do not differ
 	HasDiff  bool     `json:"hasdiff,omitempty"`
+	// Unwalkable: the diff's values are too large to visit path by path; the harness did not inspect them
+	Unwalkable bool `json:"unwalkable,omitempty"`
 	// Problem is what the reconstruction oracle says about the event's diff ("" = faithful)
 	Problem string `json:"problem,omitempty"`
 }
@@ -90,7 +92,12 @@ func (r *Recorder) RunDone(err error) {
 func (r *Recorder) FileChanged(*label.Label) {}
 func (r *Recorder) TargetEvaluating(l *label.Label, reason string, d diff.ValueDiff) {
 	e := Event{Kind: "Evaluating", Label: l.String(), Text: reason}
-	if d != nil {
+	if d != nil && !walkable(d.Old(), d.New()) {
+		// a damaged record may decode to data that is small in memory and astronomically large when it is
+		// walked path by path (tuples shared through the memo); the harness's own checks would never finish
+		e.HasDiff = true
+		e.Unwalkable = true
+	} else if d != nil {
 		e.HasDiff = true
 		e.DiffKeys, e.SameKeys = envKeys(d)
 		func() {
@@ -118,6 +125,59 @@ func DifferingEnvKeys(d diff.ValueDiff) []string {
 func SameEnvKeys(d diff.ValueDiff) []string {
 	_, same := envKeys(d)
 	return same
+}
+
+// walkable: visiting the values path by path takes at most a few million steps.
+func walkable(vs ...starlark.Value) bool {
+	budget := 4 << 20
+	onPath := map[starlark.Value]bool{} // mutable containers being visited: a cycle is not walked again
+	var walk func(v starlark.Value, depth int) bool
+	walk = func(v starlark.Value, depth int) bool {
+		if budget--; budget < 0 || depth > 5000 {
+			return false
+		}
+		switch v.(type) {
+		case *starlark.List, *starlark.Dict, *starlark.Set:
+			if onPath[v] {
+				return true
+			}
+			onPath[v] = true
+			defer delete(onPath, v)
+		}
+		switch v := v.(type) {
+		case starlark.Tuple:
+			for _, e := range v {
+				if !walk(e, depth+1) {
+					return false
+				}
+			}
+		case *starlark.List:
+			for i := 0; i < v.Len(); i++ {
+				if !walk(v.Index(i), depth+1) {
+					return false
+				}
+			}
+		case *starlark.Dict:
+			for _, kv := range v.Items() {
+				if !walk(kv[0], depth+1) || !walk(kv[1], depth+1) {
+					return false
+				}
+			}
+		case *starlark.Set:
+			for _, e := range v.Elems() {
+				if !walk(e, depth+1) {
+					return false
+				}
+			}
+		}
+		return true
+	}
+	for _, v := range vs {
+		if v != nil && !walk(v, 0) {
+			return false
+		}
+	}
+	return true
 }
 
 func envKeys(d diff.ValueDiff) (differ, same []string) {
